@@ -46,6 +46,29 @@ def gen(rng, tier):
                 ops.append(["roundtrip", a, rng.random() < 0.3, rng.random() < 0.3])
             cases.append({"ops": ops, "seed": rng.randint(0, 10 ** 6)})
             continue
+        if i % 10 in (6, 7):
+            # views whose row ids LOOK like a plain range from their end points (a permutation inside a contiguous span,
+            # repeats and gaps between matching ends, a reversed span), pickled at once and again after more indexes
+            docs, _ = K.gen_docs(rng, n_docs=rng.randint(5, 10), maxlen=12, vocab=rng.choice([2, 3, 4]), long_doc=0.0)
+            docs = [d or [] for d in docs]
+            if not any(docs):
+                docs[0] = [0, 1]
+            ops.append(["index", docs, rng.random() < 0.5])
+            narr = 1
+            for _k in range(rng.randint(2, 4)):
+                src = 0 if rng.random() < 0.7 else rng.randrange(narr)
+                ops.append(["view", src, {"style": rng.choice(["perm_span", "perm_span", "dups_span", "rev_span"])}])
+                narr += 1
+                ops.append(["roundtrip", narr - 1, rng.random() < 0.4, rng.random() < 0.4])
+                narr += 1
+            if rng.random() < 0.5:
+                d2, _ = K.gen_docs(rng, n_docs=3, maxlen=6, vocab=2, long_doc=0.0)
+                ops.append(["index", [d or [0] for d in d2], True])
+                narr += 1
+                ops.append(["roundtrip", 1, True, False])
+                narr += 1
+            cases.append({"ops": ops, "seed": rng.randint(0, 10 ** 6)})
+            continue
         if rng.random() < 0.3:
             ops.append(["foreign"])
         for _k in range(rng.randint(2, 9)):
@@ -119,7 +142,23 @@ def impl(case):
                 files.append(sorted(os.listdir(ddir)))
             elif op[0] == "view":
                 a = arrays[op[1]]
-                key = c06.gen_key(rng, len(a))
+                style = op[2].get("style") if isinstance(op[2], dict) else None
+                if style and len(a) >= 3:
+                    m = rng.randint(3, min(len(a), 7))
+                    s0 = rng.randint(0, len(a) - m)
+                    inner = list(range(s0 + 1, s0 + m - 1))
+                    if style == "perm_span":
+                        rng.shuffle(inner)
+                        if len(inner) >= 2 and inner == sorted(inner):
+                            inner.reverse()
+                        rows = [s0] + inner + [s0 + m - 1]
+                    elif style == "dups_span":
+                        rows = [s0] + [rng.choice(range(s0, s0 + m)) for _ in inner] + [s0 + m - 1]
+                    else:
+                        rows = list(range(s0 + m - 1, s0 - 1, -1))
+                    key = {"k": "ints", "v": rows}
+                else:
+                    key = c06.gen_key(rng, len(a))
                 while key["k"] in ("copy", "take") or key["k"].startswith("df_"):
                     key = c06.gen_key(rng, len(a))
                 if key["k"] == "slice":
